@@ -28,7 +28,7 @@ TStep == /\ l <= Len(Cur)
                 b1 == Apply({"ForkEdgeUnrecorded"}, a1, op)
                 b2 == Apply({"RollbackSkipsInvalidParent"}, a2, op)
                 f2 == fired \cup Fires(m, op)
-            IN /\ m' = m2 /\ r' = r2 /\ a1' = b1 /\ a2' = b2 /\ fired' = f2
+            IN /\ m' = m2 /\ mfix' = Apply({}, mfix, op) /\ r' = r2 /\ a1' = b1 /\ a2' = b2 /\ fired' = f2
                /\ stale' = (stale \/ StaleParent(m, op))
                /\ lastop' = op /\ nops' = nops + 1
                /\ bad' = IF bad[1] = 0 /\ obs # r2.valid
@@ -41,7 +41,7 @@ TNextTrace == /\ l > Len(Cur)
               /\ PrintT("VERDICT " \o ToJson(<<tid, bad[1], bad[2], bad[3]>>))
               /\ tid < Len(Traces)
               /\ tid' = tid + 1 /\ l' = 1 /\ bad' = NoBad /\ a1' = M0 /\ a2' = M0
-              /\ m' = M0 /\ r' = R0 /\ fired' = {} /\ stale' = FALSE /\ nops' = 0 /\ lastop' = NoOp
+              /\ m' = M0 /\ mfix' = M0 /\ r' = R0 /\ fired' = {} /\ stale' = FALSE /\ nops' = 0 /\ lastop' = NoOp
 TNext == TStep \/ TNextTrace
 TSpec == TInit /\ [][TNext]_tvars
 \* action properties of Handles.tla restated over the trace run (a new trace resets the machines)
